@@ -180,19 +180,27 @@ def pipeline_job(params):
     import gemdat.transitions as tr
     from pymatgen.core import Structure
     T, A, n_parts = params['T'], params['A'], params['n_parts']
+    m = params.get('m', 0)   # minimal residence (with symbolic inner states when m > 0)
 
     def body():
         s = S([[sym_int(f's_{t}_{a}', NOSITE, N_SITES - 1) for a in range(A)] for t in range(T)])
         assume(disj([s[t, a] != s[t + 1, a] for t in range(T - 1) for a in range(A)]))
+        if m > 0:
+            inn = S([[sym_int(f'i_{t}_{a}', NOSITE, N_SITES - 1) for a in range(A)] for t in range(T)])
+            for t_ in range(T):
+                for a_ in range(A):
+                    assume((inn[t_, a_] == NOSITE) | (inn[t_, a_] == s[t_, a_]))
+        else:
+            inn = s
         try:
-            ev = tr._calculate_transition_events(atom_sites=s, atom_inner_sites=s)
+            ev = tr._calculate_transition_events(atom_sites=s, atom_inner_sites=inn)
         except Exception as e:
             event(f'events exception:{type(e).__name__}', detail=str(e)[:100])
             return
         ev['id'] = list(range(len(ev)))  # extra column to identify events in the parts (ignored by GEMDAT)
         traj = _traj(T, A)
         sites = Structure(np.eye(3) * 5.0, ['Li'] * N_SITES, [[0.1 * i, 0, 0] for i in range(N_SITES)])
-        t = tr.Transitions(trajectory=traj, diff_trajectory=traj, sites=sites, events=ev, states=s, inner_states=s)
+        t = tr.Transitions(trajectory=traj, diff_trajectory=traj, sites=sites, events=ev, states=s, inner_states=inn)
         try:
             parts = t.split(n_parts)
         except ValueError as e:
@@ -209,7 +217,18 @@ def pipeline_job(params):
             prove('state parts concatenate to the original',
                   conj([cat[tt, a] == s[tt, a] for tt in range(T) for a in range(A)]))
         prove('all events kept, each once', sorted(int(i) for p in parts for i in p.events['id'].tolist()) == list(range(len(ev))))
-        whole = _jump_rows(jm, t)
+        whole = _jump_rows(jm, t, m)
+        part_rows = None
+        if m > 0:
+            # the public route: Jumps(...).split(n) must classify the parts with the same settings as the whole
+            try:
+                jparts = jm.Jumps(t, minimal_residence=m).split(n_parts)
+                part_rows = [[(r['atom index'], r['start site'], r['destination site'], r['start time'], r['stop time'])
+                              for _, r in jp.data.iterrows()] for jp in jparts]
+            except ValueError as e:
+                if 'No jumps found' in str(e):
+                    return
+                raise
         # base of a part = original minus re-based time of its first event (0 for a part without events)
         bins = _part_bases(ev, parts)
         prove('all events of a part are re-based by the same non-negative offset', bins is not None)
@@ -218,7 +237,7 @@ def pipeline_job(params):
         total = 0
         try:
             for p, part in enumerate(parts):
-                rows = _jump_rows(jm, part)
+                rows = _jump_rows(jm, part) if part_rows is None else part_rows[p]
                 if rows is None:
                     continue
                 total += len(rows)
@@ -242,13 +261,15 @@ def pipeline_job_replay(params, inputs):
     import gemdat.transitions as tr
     from pymatgen.core import Structure
     T, A, n_parts = params['T'], params['A'], params['n_parts']
+    m = params.get('m', 0)
     s = np.array([[int(inputs[f's_{t}_{a}']) for a in range(A)] for t in range(T)], dtype=int)
-    desc = f'states={s.T.tolist()} n_parts={n_parts}'
-    ev = tr._calculate_transition_events(atom_sites=s, atom_inner_sites=s)
+    inn = s if m == 0 else np.array([[int(inputs.get(f'i_{t}_{a}', -1)) for a in range(A)] for t in range(T)], dtype=int)
+    desc = f'states={s.T.tolist()} inner={inn.T.tolist()} n_parts={n_parts} minimal_residence={m}'
+    ev = tr._calculate_transition_events(atom_sites=s, atom_inner_sites=inn)
     ev['id'] = list(range(len(ev)))
     traj = _traj(T, A)
     sites = Structure(np.eye(3) * 5.0, ['Li'] * N_SITES, [[0.1 * i, 0, 0] for i in range(N_SITES)])
-    t = tr.Transitions(trajectory=traj, diff_trajectory=traj, sites=sites, events=ev, states=s, inner_states=s)
+    t = tr.Transitions(trajectory=traj, diff_trajectory=traj, sites=sites, events=ev, states=s, inner_states=inn)
     try:
         parts = t.split(n_parts)
     except ValueError as e:
@@ -271,12 +292,21 @@ def pipeline_job_replay(params, inputs):
         return False, f'parts not in chronological order (bases {edges}); {desc}'
 
     def jr(x):
-        r = _jump_rows(jm, x)
+        r = _jump_rows(jm, x, m)
         return [] if r is None else [tuple(int(v) for v in w) for w in r]
     whole = jr(t)
     tot = 0
+    if m > 0:
+        try:
+            jparts = jm.Jumps(t, minimal_residence=m).split(n_parts)
+            part_lists = [[tuple(int(v) for v in r) for r in jp.data[['atom index', 'start site', 'destination site', 'start time', 'stop time']].values.tolist()]
+                          for jp in jparts]
+        except ValueError:
+            return True, 'documented ValueError (no jumps in the whole or in a part)'
+    else:
+        part_lists = [jr(part) for part in parts]
     for p, part in enumerate(parts):
-        for (a, o, d, t1, t2) in jr(part):
+        for (a, o, d, t1, t2) in part_lists[p]:
             tot += 1
             if (a, o, d, t1 + edges[p], t2 + edges[p]) not in whole:
                 return False, f'part {p} jump {(a, o, d, t1, t2)} is not a jump of the whole {whole}; {desc}'
@@ -370,5 +400,7 @@ def jobs(tier, seed):
         js.append(dict(name=f'events_T{T}_p{n}_k{k}', fn='events_job', params=dict(T=T, n_parts=n, k=k)))
     for T, A, n in pl:
         js.append(dict(name=f'pipeline_T{T}_A{A}_p{n}', fn='pipeline_job', params=dict(T=T, A=A, n_parts=n)))
+    for T, A, n, m in ([(5, 1, 2, 3), (4, 1, 2, 1)] if tier == 'quick' else [(5, 1, 2, 2), (5, 1, 2, 3), (6, 1, 2, 3), (6, 1, 3, 2)]):
+        js.append(dict(name=f'pipeline_residence_T{T}_A{A}_p{n}_m{m}', fn='pipeline_job', params=dict(T=T, A=A, n_parts=n, m=m)))
     js.append(dict(name='trajectory_split', fn='trajsplit_job', params=dict(Tmax=ts[0], Pmax=ts[1])))
     return js
